@@ -86,8 +86,9 @@ def flatten(O):
     for p in paths:
         eng.focus(p)
         if p.outcome == "cut":
-            O.inconclusive("loop bound too small in flatten")
-            continue
+            # more loop iterations than one pass over <= 3 bindings needs: not the code this obligation is formulated
+            # over - the battery decides natively (deviation = violation, silence = inconclusive)
+            raise LookupError("flatten runs more loop iterations than one pass over its bindings (%s)" % (p.detail or "")[:80])
         if p.outcome != "return":
             R.fail(O, p, "flatten: %s %s" % (p.outcome, p.detail))
             continue
